@@ -8,6 +8,7 @@ import (
 	"fmt"
 	"os"
 	"strings"
+	"sync"
 )
 
 var out *bufio.Writer
@@ -26,7 +27,13 @@ func emit(op string, impl string) {
 // setup lines are ops whose answer is compared too (defmsg).
 var stats = map[string]int{}
 
-func stat(k string) { stats[k]++ }
+var statMu sync.Mutex
+
+func stat(k string) {
+	statMu.Lock()
+	stats[k]++
+	statMu.Unlock()
+}
 
 func main() {
 	group := flag.String("group", "", "frame|msg|enum|tlog|...")
